@@ -10,6 +10,7 @@ Line protocol of the heap evaluator (C10).  One line = one history.
     universe := `-` | hexkey,hexkey,…              cache keys observed after every operation
     op       := `E:<hex query text>`                                     evaluate
               | `MD:<i>:<canon list>`                                    R[i].data[:] = list
+              | `MI:<i>:<canon list>`                                    R[i].data[0][:] = list (a list nested in the data)
               | `MV:<i>:<hexname>:<canon list>`                          R[i].vars[name][:] = list
               | `SV:<i>:<hexname>:<canon>`                               R[i].metadata["vars"][name] = value
               | `SM:<i>:<hexstatus>:<err>:<vol>:<caching>:<hexquery>`    scribble on R[i].metadata
@@ -74,6 +75,7 @@ def isoOp (dec : List UInt8 → Str) (op : String) : Option (Option Op) :=
   match op.splitOn ":" with
   | ["E", h] => some ((isoChain dec (charsOf h)).map Op.eval)
   | ["MD", i, l] => (match i.toNat?, listOf l with | some i, some l => some (some (.mutData i l)) | _, _ => none)
+  | ["MI", i, l] => (match i.toNat?, listOf l with | some i, some l => some (some (.mutInner i l)) | _, _ => none)
   | ["MV", i, n, l] => (match i.toNat?, listOf l with | some i, some l => some (some (.mutVar i (charsOf n) l)) | _, _ => none)
   | ["SV", i, n, v] => (match i.toNat?, valOf v with | some i, some v => some (some (.setVar i (charsOf n) v)) | _, _ => none)
   | ["SM", i, st, e, v, c, q] =>
